@@ -1,5 +1,6 @@
 import EmmetProofs.ParseDen
 import EmmetProofs.ConvCount
+import EmmetProofs.ImplicitName
 /-! # C01 — the parser returns the element tree the operators denote; the converter unrolls it
 
 `Seq` / `Item` range over ALL operator skeletons: elements and groups (each optionally `*N`) joined by `>` (child, elements
@@ -26,5 +27,35 @@ example :
     let s : Seq := .child [97] none (.climb (.elem [98] none) 1 (.sib (.elem [99] none)
       (.last (.group (.child [100] none (.last (.elem [101] none))) (some 2)))))
     s.toks.length = 13 := by decide
+
+/-- the REGENERATED `ELEMENT_MAP`, looked up with ANY parent name, is the documented table: li in ul/ol, tr in table/tbody/thead/tfoot,
+td in tr, option in select/optgroup, span in p (and col in colgroup, source in audio/video, param in object, area in map), nothing else -/
+theorem C01_implicit_table (pn : Str) : lookup Gen.elementMap pn = documentedMap pn := T.lookup_elementMap pn
+
+/-- an element written with attributes but no name receives the documented implicit name for its context (the parent element, or the
+configured context name at the top level): the documented table first, `span` inside inline-level parents, `div` otherwise — for every
+option set, parent and node -/
+theorem C01_implicit_name (o : Options) (parentName : Option Str) (hasParent : Bool)
+    (name : Option Str) (v : Option (List VTok)) (a0 : AAttr) (as : List AAttr) (c : List ANode) (r : Option Rep) (s : Bool)
+    (hn : name = none ∨ name = some []) :
+    (implicitTag o parentName hasParent (.mk name v (some (a0 :: as)) c r s)).name
+      = some (documentedImplicit o.inlineElements (implicitCtx o parentName hasParent)) :=
+  T.implicitTag_name o parentName hasParent name v a0 as c r s hn
+
+/-- an element with a name keeps it ("with its own name") -/
+theorem C01_named_kept (o : Options) (parentName : Option Str) (hasParent : Bool)
+    (x : Ch) (xs : Str) (v : Option (List VTok)) (a : Option (List AAttr)) (c : List ANode) (r : Option Rep) (s : Bool) :
+    implicitTag o parentName hasParent (.mk (some (x :: xs)) v a c r s) = .mk (some (x :: xs)) v a c r s :=
+  T.implicitTag_named o parentName hasParent x xs v a c r s
+
+/-- the default inline-level elements of the REGENERATED `DEFAULT_OPTIONS` are the documented 39 -/
+theorem C01_inline_default : Gen.inlineElements = ["a", "abbr", "acronym", "applet", "b", "basefont", "bdo", "big", "br", "button", "cite",
+    "code", "del", "dfn", "em", "font", "i", "iframe", "img", "input", "ins", "kbd", "label", "map", "object", "q", "s", "samp", "select",
+    "small", "span", "strike", "strong", "sub", "sup", "textarea", "tt", "u", "var"].map lit := by decide +kernel
+
+/-- non-vacuity: `.x` under `UL` (any letter case) is `li`; under `em` (inline by default) `span`; under `section` `div` -/
+example : documentedImplicit Gen.inlineElements (implicitCtx {} (some (lit "UL")) true) = lit "li" := by decide +kernel
+example : documentedImplicit Gen.inlineElements (implicitCtx {} (some (lit "em")) true) = lit "span" := by decide +kernel
+example : documentedImplicit Gen.inlineElements (implicitCtx {} (some (lit "section")) true) = lit "div" := by decide +kernel
 
 end EmmetProps
